@@ -37,6 +37,8 @@ def check_pop(ctx, pm, n_ids, rng, inp, tag, known_tag=None, cov_pooled=False):
         return
     ctx.spec(t + '.count_eq_names', n == len(names), inp, {'n_parameters': n, 'names': names})
     ctx.spec(t + '.top_eq_count', nt == n, inp, {'n_hierarchical_parameters': [nb, nt], 'n_parameters': n})
+    if inp.get('composed') or len(inp.get('subs', [])) == 1:
+        ctx.spec(t + '.names_distinct', len(set(names)) == len(names), inp, {'names': names})
     if n != len(names) or nt != n:
         return
     x = rng.uniform(0.5, 1.5, n)
@@ -86,9 +88,22 @@ def pop_objects(ctx, chi, rng, i, subs=None, n_ids=None, ops=True):
                 elif r < 0.5:
                     pm.set_dim_names(['d%d' % k for k in range(pm.n_dim())])
                     seq.append('set_dim_names')
-                elif r < 0.65:
+                elif r < 0.58:
                     pm.set_parameter_names(['p%d' % k for k in range(pm.n_parameters())])
                     seq.append('set_parameter_names')
+                elif r < 0.65 and not isinstance(pm, chi.ReducedPopulationModel):
+                    # custom names, then a reset: the defaults of a fresh object come back
+                    pm.set_parameter_names(['q%d' % k for k in range(pm.n_parameters())])
+                    pm.set_parameter_names(None)
+                    seq.append('set_parameter_names(None)')
+                    fresh = [c02.make_sub(chi, *s_) for s_ in subs]
+                    fresh = chi.ComposedPopulationModel(fresh) if composed else fresh[0]
+                    fresh.set_n_ids(n_ids)
+                    if any(x == 'set_dim_names' for x in seq):
+                        fresh.set_dim_names(['d%d' % k for k in range(fresh.n_dim())])
+                    ctx.spec('C17.population.names_after_reset', pm.get_parameter_names() == fresh.get_parameter_names(),
+                             dict(inp, sequence=list(seq)),
+                             {'after_reset': pm.get_parameter_names(), 'fresh': fresh.get_parameter_names()})
                 elif r < 0.85 and not isinstance(pm, chi.ReducedPopulationModel):
                     pm = chi.ReducedPopulationModel(pm)
                     nm = pm.get_parameter_names()
@@ -130,7 +145,22 @@ def reduced_before_n_ids(ctx, chi, rng):
 def likelihood_objects(ctx, chi, rng, i):
     from props import c01
     kinds, grids, obs, n_mech, psi, sig = c01.gen_case(rng, ties=False)
-    _, ll = c01.build(chi, kinds, grids, obs, n_mech, i)
+    shared = len(kinds) >= 2 and rng.random() < 0.4
+    if shared:
+        # the user passes ONE error-model object for every output
+        kinds = [kinds[0]] * len(kinds)
+        from props import c04
+        em = c04.classes(chi)[kinds[0]][0]()
+        ll = chi.LogLikelihood(toy.ToyModel(len(kinds), n_mech, i), [em] * len(kinds),
+                               [list(o) for o in obs], [list(g) for g in grids])
+    else:
+        _, ll = c01.build(chi, kinds, grids, obs, n_mech, i)
+    if len(kinds) >= 2:
+        model_out = toy.ToyModel(len(kinds), n_mech, i).outputs()
+        em_names = {'G': ['Sigma'], 'M': ['Sigma rel.'], 'CM': ['Sigma base', 'Sigma rel.'], 'LN': ['Sigma log']}
+        want = ['psi%d' % k for k in range(n_mech)] + [o + ' ' + nm for o, k_ in zip(model_out, kinds) for nm in em_names[k_]]
+        ctx.spec('C17.LogLikelihood.names_identify_outputs', ll.get_parameter_names() == want,
+                 {'kinds': kinds, 'shared_error_model_instance': shared}, {'names': ll.get_parameter_names(), 'expected': want})
     seq = []
     names0 = ll.get_parameter_names()
     if rng.random() < 0.5:
